@@ -163,11 +163,11 @@ class DyadCarrier(object):
         vsub = [vi[subscript[1]] for vi in self.v]
 
         if is_uni_slice or is_np_slice:
-            res = 0
+            res = np.zeros(np.broadcast(usample, vsample).shape, dtype=self.dtype)
             for (ui, vi) in zip(usub, vsub):
                 res += ui*vi
 
-            return res
+            return res[()] if res.ndim == 0 else res
         else:
             return DyadCarrier(usub, vsub, shape=(np.size(usample), np.size(vsample)))
 
